@@ -1767,6 +1767,11 @@ func (n *node) spawn(factory gen.ProcessFactory, options gen.ProcessOptionsExtra
 
 func (n *node) unregisterProcess(p *process, reason error) {
 	n.processes.Delete(p.pid)
+	if p.registered.Load() {
+		// release the name before anybody is told about the termination:
+		// a supervisor restarts its child under the same name right away
+		n.names.CompareAndDelete(p.name, p)
+	}
 	n.RouteTerminatePID(p.pid, reason)
 	// remove links and monitors this process has created
 	n.targetManager.CleanupConsumer(p.pid)
@@ -1778,7 +1783,6 @@ func (n *node) unregisterProcess(p *process, reason error) {
 	n.log.Trace("...unregisterProcess %s", p.pid)
 
 	if p.registered.Load() {
-		n.names.Delete(p.name)
 		pname := gen.ProcessID{Name: p.name, Node: n.name}
 		n.RouteTerminateProcessID(pname, reason)
 	}
